@@ -4,6 +4,7 @@ import (
 	"encoding/json"
 	"fmt"
 	"reflect"
+	"runtime/debug"
 	"sort"
 	"strings"
 	"sync"
@@ -325,6 +326,67 @@ func c20Drive(args []string) int {
 			calls = append(calls, M{"ev": "value", "tr": 1000 + len(calls), "kind": "argument", "script": fmt.Sprintf("%s, through a schema, record %d", d.name, k+1), "expected": w, "got": got})
 			sum.eval(true, M{"schema-dep": d.name, "k": k})
 		}
+	}
+	// _node of a flat-file record is what that record holds - also when the nodes it is built from had an earlier life in
+	// a transform of a format whose nodes carry type information (garbage collection held off so that they are reused)
+	{
+		csvCtx := `{"parser_settings": {"version": "omni.2.1", "file_format_type": "csv2"},
+ "file_declaration": {"delimiter": ",", "records": [{"name": "R", "columns": [{"name": "A", "index": 1}, {"name": "B", "index": 2}, {"name": "C", "index": 3}]}]},
+ "transform_declarations": {"FINAL_OUTPUT": {"custom_func": {"name": "javascript_with_context", "args": [{"const": "_node"}]}}}}`
+		fixCtx := `{"parser_settings": {"version": "omni.2.1", "file_format_type": "fixedlength2"},
+ "file_declaration": {"envelopes": [{"name": "R", "columns": [{"name": "A", "start_pos": 1, "length": 2}, {"name": "B", "start_pos": 3, "length": 2}]}]},
+ "transform_declarations": {"FINAL_OUTPUT": {"custom_func": {"name": "javascript_with_context", "args": [{"const": "_node"}]}}}}`
+		ediCtx := `{"parser_settings": {"version": "omni.2.1", "file_format_type": "edi"},
+ "file_declaration": {"segment_delimiter": "~", "element_delimiter": "*", "segment_declarations": [{"name": "S", "is_target": true, "max": -1, "elements": [{"name": "A", "index": 1}, {"name": "B", "index": 2}]}]},
+ "transform_declarations": {"FINAL_OUTPUT": {"custom_func": {"name": "javascript_with_context", "args": [{"const": "_node"}]}}}}`
+		typed := `{"parser_settings": {"version": "omni.2.1", "file_format_type": "json"},
+ "transform_declarations": {"FINAL_OUTPUT": {"xpath": "/*", "object": {"n": {"xpath": "n", "type": "float"}}}}}`
+		typedIn := `[{"n": 1, "b": true, "z": null, "arr": [1, 2, [3]], "o": {"k": false}}, {"n": 2, "b": false, "z": null, "arr": [], "o": {}}, {"n": 3, "arr": [null, 0, ""]}]`
+		nsX := `{"parser_settings": {"version": "omni.2.1", "file_format_type": "xml"}, "transform_declarations": {"FINAL_OUTPUT": {"xpath": "/p:r/p:e", "object": {"v": {"xpath": "."}}}}}`
+		nsIn := `<p:r xmlns:p="urn:p"><p:e p:k="1">a</p:e><p:e>b</p:e><p:e><p:f>c</p:f></p:e></p:r>`
+		flat := []struct {
+			name, schema, in string
+			nodes            []string
+		}{
+			{"csv2", csvCtx, "a1,b1,c1\na2,b2,c2\na3,b3,c3\n", []string{`{"A":"a1","B":"b1","C":"c1"}`, `{"A":"a2","B":"b2","C":"c2"}`, `{"A":"a3","B":"b3","C":"c3"}`}},
+			{"fixedlength2", fixCtx, "a1b1\na2b2\n", []string{`{"A":"a1","B":"b1"}`, `{"A":"a2","B":"b2"}`}},
+			{"edi", ediCtx, "S*a1*b1~S*a2*b2~", []string{`{"A":"a1","B":"b1"}`, `{"A":"a2","B":"b2"}`}}}
+		prior := []struct{ name, schema, in string }{{"nothing", "", ""}, {"a JSON transform", typed, typedIn}, {"a namespaced XML transform", nsX, nsIn}}
+		old := debug.SetGCPercent(-1)
+		for _, pr := range prior {
+			for _, f := range flat {
+				if pr.schema != "" {
+					psch, e, p := newSchema([]byte(pr.schema))
+					if e != nil || p != "" {
+						fmt.Println("error: c20 prior schema rejected", e, p)
+						return 3
+					}
+					for k := 0; k < 3; k++ {
+						runTranscript(psch, strings.NewReader(pr.in), RunOpts{MaxReads: 10})
+					}
+				}
+				sch, e, p := newSchema([]byte(f.schema))
+				if e != nil || p != "" {
+					fmt.Println("error: c20 flat schema rejected", f.name, e, p)
+					return 3
+				}
+				out := runTranscript(sch, strings.NewReader(f.in), RunOpts{MaxReads: 6})
+				got := ""
+				for _, r := range out.Results {
+					got += r.Class + " " + r.Out + ";"
+				}
+				want := ""
+				for _, n := range f.nodes {
+					b, _ := json.Marshal(n)
+					want += "ok " + string(b) + ";"
+				}
+				want += "eof ;"
+				calls = append(calls, M{"ev": "value", "tr": 1000 + len(calls), "kind": "argument", "script": fmt.Sprintf("_node of every %s record right after %s", f.name, pr.name),
+					"expected": want, "got": got})
+				sum.eval(true, M{"ctx-after": pr.name, "f": f.name})
+			}
+		}
+		debug.SetGCPercent(old)
 	}
 	var events []interface{}
 	events = append(events, rec.events...)
